@@ -413,7 +413,18 @@ def c08f(chk):
         if b in region:
             srcs |= RC.fmt_arg_sources(f, t)
     ok = "sfs_core::input::site::reader::Reader::current_contig" in srcs and "sfs_core::input::site::reader::Reader::current_position" in srcs
-    chk.ob("C08.f", "Runner::run/Error-arm-names-contig-and-position", ok, f.loc(arms["Error"]), "the error must display current_contig() and current_position() (sources %s)" % sorted(srcs))
+    # .. on every path: the arm cannot leave the function without passing a message that shows both (an error handed on bare for some
+    # kinds of failure would lose the site)
+    fmt_bbs = set()
+    for b, pieces, phs, t in an.format_calls(f):
+        if b in region:
+            s1 = RC.fmt_arg_sources(f, t)
+            if "sfs_core::input::site::reader::Reader::current_contig" in s1 and "sfs_core::input::site::reader::Reader::current_position" in s1:
+                fmt_bbs.add(b)
+    bare = [b for b in f.reachable_from(arms["Error"], avoid=fmt_bbs) if f.term(b)["k"] == "return"] if fmt_bbs else ["?"]
+    ok = ok and not bare
+    chk.ob("C08.f", "Runner::run/Error-arm-names-contig-and-position", ok, f.loc(arms["Error"]),
+           "the error must display current_contig() and current_position() on every path out of the arm (sources %s; returns reachable without such a message: %s)" % (sorted(srcs), [f.loc(b) if b != "?" else b for b in bare]))
     RC.no_partial_output(chk, "C08.f", RC.CREATE_RUN, RC.RUNNER_RUN, [RC.WRITE_STDOUT])
 
 
@@ -812,7 +823,19 @@ def c09h(chk):
     if g_ is not None:
         so = [t for b, t in g_.calls() if callee_is(t["callee"], "core::str::<impl str>::split_once")]
         sep = an.const_of(g_, so[0]["args"][1]).get("val") if len(so) == 1 and an.const_of(g_, so[0]["args"][1]) else None
-        chk.ob("C09.h", "parse_sample_population/split-at-first-'='", sep == "=", g_.loc(), "an entry is `sample=label`, split at the first '=' (found %r)" % sep)
+        how_ = "split_once(%r)" % sep
+        if not so:
+            # `s.splitn(2, '=')` read with two next() calls is the same split: the first piece is the sample, the rest (with any further
+            # '=' in it) the label
+            sn = [t for b, t in g_.calls() if callee_is(t["callee"], "core::str::<impl str>::splitn")]
+            if len(sn) == 1 and len(sn[0]["args"]) == 3:
+                n_ = an.const_of(g_, sn[0]["args"][1])
+                c_ = an.const_of(g_, sn[0]["args"][2])
+                nexts = [t for b, t in g_.calls() if callee_name(t["callee"]).endswith("Iterator>::next") or (t["callee"].get("path") or "") == "core::iter::traits::iterator::Iterator::next"]
+                if n_ and n_.get("val") == 2 and c_ and len(nexts) == 2:
+                    sep = c_.get("val")
+                    how_ = "splitn(2, %r) read with two next()" % sep
+        chk.ob("C09.h", "parse_sample_population/split-at-first-'='", sep == "=", g_.loc(), "an entry is `sample=label`, split at the first '=' (found %s)" % how_)
     c_ = chk.fn(RC.CREATE_RUN)
     if c_ is not None:
         ss = an.calls(c_, "sfs_core::input::site::reader::builder::Builder::set_samples")
